@@ -3,6 +3,7 @@ import Ach.Model.Layout
 import Ach.Generated.Layouts
 import Ach.Model.Mask
 import Ach.Model.CreateDriver
+import Ach.Model.ValidateDriver
 import Ach.Model.PipelineDriver
 import Ach.Model.ServerDriver
 import Ach.Model.RepoDriver
@@ -66,6 +67,7 @@ def step (cx : Ctx) (line : String) : String :=
         | some m => Ach.CreateDriver.run (toString m :: rest)
         | none => "nomodel")
      | _ => Ach.CreateDriver.run args)
+  | "validate" :: args => Ach.ValidateDriver.run args
   | ["mask", "number", h] =>
     match hexToStr h with
     | some s => bytesToHex (ByteArray.mk (maskNumber s).toArray)
